@@ -667,3 +667,26 @@ Proof.
   eexists _, out, _. split; [reflexivity|]. split; [apply map_length|]. split; [apply map_length|].
   apply reply_shape_ok_prop. apply ip_decision_reply_inv in Hout. apply (reply_shape _ _ _ Hout).
 Qed.
+
+(* ---------- SCION: the oracle for every packet, addressed to the listener or not ---------- *)
+
+Lemma scion_addressed_eq : forall cp lp h, scion_addressed cp lp h = addressed_to_listener cp lp h.
+Proof. reflexivity. Qed.
+
+Lemma model_meets_oracle_scion_any : forall cp lp src h payload e,
+  bytes_ok payload -> env_ok payload e -> e_spao_fail e = false ->
+  C09_scion_any_ok src cp lp h payload (e_nts_ok e) (e_path_rev e)
+    (scion_replies src (scion_decision_of cp lp h payload e)) = true.
+Proof.
+  intros cp lp src h payload e Hb He Hs. unfold C09_scion_any_ok.
+  destruct (scion_addressed cp lp h) eqn:Ea.
+  - apply model_meets_oracle_scion; assumption.
+  - assert (scion_replies src (scion_decision_of cp lp h payload e) = []) as ->.
+    { unfold scion_addressed in Ea. unfold scion_decision_of.
+      destruct (addr_ok (h_src_raw h)); [|reflexivity].
+      destruct (addr_ok (h_dst_raw h)); [|reflexivity].
+      destruct (h_udp_dst h =? lp); cbn [negb andb] in *.
+      - apply negb_false_iff in Ea. rewrite Ea. reflexivity.
+      - destruct (_ || _); reflexivity. }
+    destruct (scion_forwarded cp lp h); reflexivity.
+Qed.
